@@ -231,6 +231,9 @@ def allow_lists(ctx, scratch):
             if os.path.exists(os.path.join(r, rel)):
                 lib.append((r, rel))
     cases = [(os.path.join(root, rel), rel) for rel in layout] + [(os.path.join(r, rel), rel) for r, rel in lib]
+    # code without a source file is never admitted, whatever is listed: the child runs in <root>/alpha, so resolving such a
+    # name against the working directory would put the listed names "alpha" (and "beta", a sibling file) on its path
+    cases += [(fn, None) for fn in ("<string>", "<stdin>", "<frozen os>", "<frozen importlib._bootstrap>", "<alpha>", "<beta>", "<doctest alpha.core[0]>")]
     names_pool = ["alpha", "beta", "sub", "colorsys", "json", "decoder", "hypothesis", "zeta", "alphabet", "other"]
     # names of directory components of the library install paths: they name no package, so they admit no library file
     install_parts = sorted({c for r in ROOTS for c in r.split(os.sep) if c})
@@ -245,14 +248,17 @@ def allow_lists(ctx, scratch):
         if not names:
             env["MONKEYTYPE_TRACE_MODULES"] = ""
         p = subprocess.run([sys.executable, "-c", CHILD_ALLOW, json.dumps(sys.path)], input=json.dumps([c[0] for c in cases]),
-                           capture_output=True, text=True, env=env)
+                           capture_output=True, text=True, env=env, cwd=os.path.join(root, "alpha"))
         if p.returncode:
             raise core.HarnessError("allow-list child failed: " + p.stderr[-1500:])
         for (fn, rel), got in zip(cases, json.loads(p.stdout)):
-            parts = rel.split("/")
-            stem = parts[-1][:-3]
-            want = any(n == stem or n in parts[:-1] for n in names)
-            ctx.case(["ALLOW", names, rel], bool(names), ["allow-list:%d-names" % len(names)])
+            if rel is None:
+                want = False
+            else:
+                parts = rel.split("/")
+                stem = parts[-1][:-3]
+                want = any(n == stem or n in parts[:-1] for n in names)
+            ctx.case(["ALLOW", names, rel or fn], bool(names), ["allow-list:%d-names" % len(names)] + (["allow-list:synthetic-file-name"] if rel is None else []))
             if got != want:
                 ctx.fail("C17/allow-list-verdict-wrong", ["ALLOW", names, fn], f"MONKEYTYPE_TRACE_MODULES={names}: {got} for {fn}, expected {want}", raise_=False)
 
@@ -450,6 +456,60 @@ def twin_modules(ctx, scratch, order_bits):
 twin_modules.n = 0
 
 
+def _na(x):
+    return x
+
+
+def _nb(x):
+    return [x]
+
+
+def nested_sessions(ctx, ops):
+    """a tracing session opened and closed inside another one (each with its own filter and logger): once the inner session
+    is over, the outer filter's accepted functions reach the outer logger again - and never the other session's logger"""
+    import contextlib
+    outer, inner_logs = ListLogger(), []
+    want_outer = 0
+    want_inner = []
+    spec = ["NESTED", ops]
+    with contextlib.ExitStack() as outer_stack:
+        outer_stack.enter_context(trace_calls(outer, 0, lambda c: c is _na.__code__))
+        inner_stack = None
+        for op in ops:
+            if op == "open" and inner_stack is None:
+                inner_stack = contextlib.ExitStack()
+                lg = ListLogger()
+                inner_logs.append(lg)
+                want_inner.append(0)
+                inner_stack.enter_context(trace_calls(lg, 0, lambda c: c is _nb.__code__))
+            elif op == "close" and inner_stack is not None:
+                inner_stack.close()
+                inner_stack = None
+            elif op == "a":
+                _na(1)
+                if inner_stack is None:
+                    want_outer += 1
+            elif op == "b":
+                _nb(1)
+                if inner_stack is not None:
+                    want_inner[-1] += 1
+        if inner_stack is not None:
+            inner_stack.close()
+    reopened = any(o == "a" for i, o in enumerate(ops) if "close" in ops[:i] and "open" in ops[:ops.index("close")]) if "close" in ops else False
+    ctx.case(spec, reopened, ["nested-sessions"] + (["nested-sessions:outer-call-after-inner-closed"] if reopened else []))
+    got_outer = [t for t in outer.t]
+    if any(t.func is not _na for t in got_outer) or any(t.func is not _nb for lg in inner_logs for t in lg.t):
+        return ctx.fail("C17/custom-filter-rejected-function-logged", spec, f"a session logged a function its filter rejects: outer={got_outer[:3]} inner={[lg.t[:2] for lg in inner_logs]}")
+    # calls of the outer function made while an inner session is active are not demanded of either logger
+    during = sum(1 for i, o in enumerate(ops) if o == "a") - want_outer
+    if not want_outer <= len(got_outer) <= want_outer + during:
+        return ctx.fail("C17/custom-filter-accepted-function-not-logged", spec,
+                        f"outer session: {len(got_outer)} traces of its accepted function, {want_outer} calls were made while it was the only open session (+{during} during inner sessions); ops {ops}")
+    for lg, w in zip(inner_logs, want_inner):
+        if len(lg.t) != w:
+            return ctx.fail("C17/custom-filter-accepted-function-not-logged", spec, f"inner session: {len(lg.t)} traces for {w} accepted calls; ops {ops}")
+
+
 def shard(ctx):
     q = ctx.tier == "quick"
     scratch = tempfile.mkdtemp(prefix="c17-")
@@ -481,6 +541,13 @@ def shard(ctx):
                 return test
             core.run_hypothesis(ctx, f1, 120 if q else 1200, salt=1)
             core.run_hypothesis(ctx, f2, 25 if q else 200, salt=2)
+
+            def f3(ctx):
+                @given(st.lists(st.sampled_from(["a", "b", "open", "close", "a"]), min_size=3, max_size=12))
+                def test(ops):
+                    nested_sessions(ctx, ops)
+                return test
+            core.run_hypothesis(ctx, f3, 60 if q else 600, salt=3)
         finally:
             sc.close()
     finally:
@@ -503,6 +570,8 @@ def replay(ctx, case):
                 allow_lists(ctx, scratch)
         elif case[0] == "RUN":
             run_script(ctx, scratch, 0, case[1], case[2])
+        elif case[0] == "NESTED":
+            nested_sessions(ctx, case[1])
         elif case[0] == "TWINMOD":
             twin_modules(ctx, scratch, case[1])
         elif case[0] == "FILTER":
